@@ -115,6 +115,9 @@ func main() {
 			os.Exit(2)
 		}
 		v := run.Violation{Prop: *prop, Kind: "deadlock", Class: "deadlock:blocked-for-ever", Detail: detail, Step: -1}
+		if strings.Contains(detail, "30 s of real time") {
+			v.Kind, v.Class = "no-progress", "no-progress:spinning"
+		}
 		rep.Found = append(rep.Found, Found{Viol: v, All: []run.Violation{v}, Original: s, Minimised: s})
 		rep.Next = curIdx.Load() + 1
 		rep.WallS = time.Since(start).Seconds()
@@ -373,6 +376,9 @@ type ReplayFile struct {
 func doReplay(path string, opt run.Options, trace, jsonOut bool) int {
 	run.HangWatch(func(detail string) {
 		v := run.Violation{Kind: "deadlock", Class: "deadlock:blocked-for-ever", Detail: detail, Step: -1}
+		if strings.Contains(detail, "30 s of real time") {
+			v.Kind, v.Class = "no-progress", "no-progress:spinning"
+		}
 		if jsonOut {
 			b, _ := json.Marshal(struct {
 				Viol  []run.Violation
